@@ -358,6 +358,12 @@ def long_piece(L, variant):
         return ("aB" * L)[:L]
     if variant == "nonascii":
         return "é" * (L // 2) + ("a" if L % 2 else "")
+    if variant in ("stray1", "stray2", "stray3"):
+        # literal '%' that is no escape (kept as written): at the end, before one hex digit, several of them —
+        # length estimates that count every '%' as a three-byte escape come out too low exactly here
+        tail = {"stray1": "%", "stray2": "%a", "stray3": "%%41%"}[variant]
+        fill = max(0, L - len(tail))
+        return ("ab" * fill)[:fill] + tail
     esc = {"slash0": "%2F", "slashM": "%2f", "slashE": "%2F", "pct41": "%41", "bad": "%zz", "dots": "..."}[variant]
     fill = max(0, L - len(esc))
     if variant == "slash0":
@@ -402,7 +408,7 @@ def st_long(ctx, shapes, label="long", every=False):
     buffers), plain and with an escape at the start / middle / end; the thorough tier walks every length up to 300"""
     out = []
     lens = list(range(0, 301)) if every else [l + d for l in LEN_BOUNDS for d in (0,)]
-    variants = ["plain", "upper", "nonascii", "slash0", "slashM", "slashE", "pct41", "bad", "dots"]
+    variants = ["plain", "upper", "nonascii", "slash0", "slashM", "slashE", "pct41", "bad", "dots", "stray1", "stray2", "stray3"]
     r = ctx.rng(label)
     for slot in LONG_SLOTS:
         for L in lens:
@@ -616,6 +622,10 @@ def rand_quals_step(r, sep=":"):
     if c == 21:
         return "clear" if r.chance(1, 4) else "len"
     if c == 22:
+        if r.chance(1, 3):
+            ops = "".join(r.pick(["n", "b", "n", "b", "l", "t0", "t1", "t2", "t3", "t7", "u0", "u1", "u2", "u3", "u7", "t18446744073709551615", "u18446744073709551615"])
+                          for _ in range(1 + r.below(6)))
+            return J(["it", r.pick(["i", "m"]), ops])
         return r.pick(["iter", "riter", "len", "ends", "tgck", "eqf", "eqf", "snap", "snap"])
     if c == 23:
         return J([r.pick(["imut", "rimut"]), v()])
@@ -743,6 +753,22 @@ def st_bsearch(ctx, n, label="bsearch"):
         else:
             probe = r.pick(words + ["k%03d" % r.below(3 * L + 1), "zzzz", ""])
         out.append(req(probe, keys))
+    return out
+
+
+def st_iter_scripts():
+    """every script of up to three calls (next, next_back, nth / nth_back with small, exact and overshooting
+    arguments, len) on one iterator of a collection of 0..5 pairs, for iter() and iter_mut(): a partly consumed
+    iterator must go on like a slice iterator over the same pairs"""
+    import itertools
+    out = []
+    calls = ["n", "b", "t0", "t1", "t2", "t4", "u0", "u1", "u2", "u4", "l"]
+    for n in range(0, 6):
+        ins = ";".join("ins:%s:%s" % (hx("k%d" % i), hx(str(i))) for i in range(n))
+        for m in ("i", "m"):
+            for a_, b_ in itertools.product(calls, repeat=2):
+                steps = ["it:%s:%s" % (m, a_ + b_ + c_ + "l") for c_ in calls]
+                out.append(case("quals " + ";".join(([ins] if ins else []) + steps), "iter-scripts"))
     return out
 
 
